@@ -45,6 +45,14 @@ pub fn collect(tier: &str, caps: &Caps, rep: &Report) -> Vec<In> {
         rep.add_stats("c16/combo(2,curated)", &format!("dev({})", b.unwrap()), &st);
     }
     {
+        // flattening cases one deviation deeper than the shared corpus has them (two ghost-only nested structs need five
+        // non-default choices - seed C19-02)
+        let fo = crate::sem_flat::FlatOpts { max_members: 3, max_ghosts: 2, max_depth: 2, positional: false };
+        let b = if tier == "quick" { Some(5) } else { Some(7) };
+        let st = explore(|ctx| crate::sem_flat::gen_child(ctx, &fo), b, caps, |ch, c| push("sem-flat-deep", ch, c.tags.clone(), c.item("S", true).render()));
+        rep.add_stats("sem-flat-deep", &format!("dev({})", b.unwrap()), &st);
+    }
+    {
         // chains of trait-level repeat() templates (several live templates, followers with and without parameters)
         use super::Space;
         for enum_host in [false, true] {
